@@ -90,3 +90,4 @@ package meta
 //@ func updateCounter
 //@   property C02
 //@   opt wide=80
+//@   opt freshalloc=true
